@@ -144,8 +144,25 @@ package ociregistry
 //@ func SliceSeq
 //@   pure
 //@   ensures result != nil
+// yielded() / yieldedAt(i) are the ghost count and sequence of the items a
+// producer has handed to its consumer; stopped() says the consumer declined
+// (or an error was delivered).
 //@ func SliceSeq$1
 //@   yield-requires(x, err) err == nil && exists i int :: 0 <= i && i < len(xs) && xs[i] == x
+//@   loop 0 invariant yielded() == rangeindex + 1 && rangeindex + 1 <= len(xs) && !stopped()
+//@   loop 0 invariant forall j int :: 0 <= j && j < yielded() ==> yieldedAt(j) == xs[j]
+//@   ensures[in-order-nothing-skipped] yielded() <= len(xs) && forall j int :: 0 <= j && j < yielded() ==> yieldedAt(j) == xs[j]
+//@   ensures[complete-unless-told-to-stop] stopped() || yielded() == len(xs)
+//@   ensures[never-an-error] yieldedErr() == nil
+
+// All collects exactly what the iterator offers, in order, up to the first
+// error (offered() / offeredAt(i): ghost sequence of the items offered to
+// the callback).
+//@ func All
+//@   log
+//@   requires it != nil
+//@   closure 1 invariant len(xs) == offered() && forall j int :: 0 <= j && j < len(xs) ==> xs[j] == offeredAt(j)
+//@   ensures[collects-what-was-offered] len(result.0) == offered() && forall j int :: 0 <= j && j < len(result.0) ==> result.0[j] == offeredAt(j)
 
 // ---------------------------------------------------------------------------
 // C07: errors keep their identity, status and message across the wire.
